@@ -74,6 +74,13 @@ def series(case):
         if 0 < peak < 8:
             a = a * (8.0 / peak)  # keep some structure after rounding to integers
     arg = gen.as_container(spec, a)
+    if case.get("uint") and spec.get("as") in (None, "int"):
+        # raw digitiser counts: unsigned integer dtype (the series is shifted to be non-negative; peaks do not depend on a shift)
+        bits = {"uint8": 8, "uint16": 16, "uint64": 40}[case["uint"]]
+        r = np.array(arg, dtype=float)
+        span = float(np.max(r) - np.min(r))
+        r = (r - np.min(r)) * (min(1.0, (2.0 ** bits - 1) / span) if span > 0 else 1.0)
+        arg = np.array(np.floor(r), dtype=case["uint"])
     a = np.array(arg, dtype=float)  # what the library sees (the int variant rounds)
     if isinstance(arg, np.ndarray):
         arg = arg.copy()
@@ -96,6 +103,8 @@ def _cases(draw, max_n=5000):
         case["tail"] = draw(st.integers(1, 5))
     if draw(st.integers(0, 5)) == 0:
         case["pow2"] = draw(st.sampled_from([-300, -200, -60, -30, 60, 200, 300]))
+    elif draw(st.integers(0, 5)) == 0:
+        case["uint"] = draw(st.sampled_from(["uint8", "uint16", "uint64"]))
     elif draw(st.integers(0, 3)) == 0:
         case["outlier"] = [draw(st.sampled_from([0, 0, 1, -1, 3, 17])),
                            draw(st.sampled_from([-1.0, 1.0])) * 2.0 ** draw(st.integers(40, 70))]
@@ -114,6 +123,8 @@ def _classify(ctx, case, a, r_all, pl):
             ctx.cls("offset")
         if case.get("outlier"):
             ctx.cls("outlier")
+        if case.get("uint"):
+            ctx.cls("unsigned-dtype")
         if case.get("pow2") and spec.get("as") != "int":
             ctx.cls("rescaled")
     ctx.cls(gen.size_class(len(a)))
